@@ -27,7 +27,10 @@ def data_segment(draw, max_decls=5, names=None):
     for n in names:
         ty = draw(st.sampled_from(["byte", "half", "word", "word", "string", "zero"]))
         if ty == "string":
-            s = draw(st.text(alphabet=[c for c in map(chr, range(32, 127)) if c not in '"\\#'], max_size=12))
+            body = draw(st.text(alphabet=[c for c in map(chr, range(32, 127)) if c not in '"\\#'], max_size=12))
+            # edges that a tokeniser / quote stripper / splitter might trip over (all legal inside a double-quoted string)
+            edge = st.sampled_from(["", "", "", "'", "''", " ", "  ", ",", ":", "x:", ".word 1", "0x1F", "-1", "a, b", "(", ")", "[1]", "+", ";", "~", "it's", "%d", "\t"])
+            s = draw(edge) + body + draw(edge)
             decls.append({"name": n, "type": "string", "string": s})
         elif ty == "zero":
             decls.append({"name": n, "type": "zero", "n": draw(st.one_of(st.integers(1, 5), st.integers(1, 5),
